@@ -404,7 +404,14 @@ def main():
                     loc = u.get("location") or {}
                     distinct.add((loc.get("file"), loc.get("line"), u.get("description")))
                 if len(samples) < 12:
-                    for u in c["user_ok"][:2]:
+                    tagged = [u for u in c["user_ok"] if tag_of(u.get("description"))]
+                    seen_desc = set()
+                    picks = []
+                    for u in tagged + c["user_ok"]:
+                        if u.get("description") not in seen_desc:
+                            seen_desc.add(u.get("description"))
+                            picks.append(u)
+                    for u in picks[:2]:
                         samples.append({"harness": h["name"], "obligation": u.get("description"),
                                         "status": "discharged", "class": h.get("cls", "B")})
                 if is_kf_harness:
